@@ -7,6 +7,7 @@ import (
 	"fmt"
 	"go/ast"
 	"go/token"
+	"go/types"
 	"regexp"
 	"strconv"
 	"strings"
@@ -141,8 +142,28 @@ func cmsIn(nodes ...ast.Node) string {
 	return string(b)
 }
 
-// selsIn lists the selector heads with unresolved identifiers, exactly the test of build.go:487-489.
-func selsIn(nodes ...ast.Node) string {
+// unresolved decides, with go/types only (the parser's ast.Object resolution is NOT consulted), whether a selector base
+// resolves to no file-local object: it names an import, a universe or dot-imported object, nothing at all, or a
+// package-level object declared in ANOTHER file. This is the definition of the model's `sels` input.
+func (p *projector) unresolved(id *ast.Ident) bool {
+	obj := p.uses[id]
+	if obj == nil {
+		return true
+	}
+	if _, ok := obj.(*types.PkgName); ok {
+		return true
+	}
+	if obj.Pkg() == nil {
+		return true
+	}
+	if obj.Parent() == obj.Pkg().Scope() {
+		return p.fset.File(obj.Pos()) != p.fset.File(id.Pos())
+	}
+	return false
+}
+
+// selsIn lists the selector heads that do not resolve to a file-local object (what build.go:487-489 is meant to test).
+func (p *projector) selsIn(nodes ...ast.Node) string {
 	var out []string
 	for _, n := range nodes {
 		if isNilNode(n) {
@@ -150,8 +171,16 @@ func selsIn(nodes ...ast.Node) string {
 		}
 		ast.Inspect(n, func(m ast.Node) bool {
 			if sel, ok := m.(*ast.SelectorExpr); ok {
-				if id, ok := sel.X.(*ast.Ident); ok && id.Obj == nil {
-					out = append(out, id.Name)
+				if id, ok := sel.X.(*ast.Ident); ok {
+					u := p.unresolved(id)
+					if u != (id.Obj == nil) && !p.resolutionNoted {
+						// self-check of the definition against the parser's resolution of OUR parse (plain ParseComments)
+						p.resolutionNoted = true
+						p.odd = append(p.odd, "selector base "+id.Name+": go/types and parser resolution disagree")
+					}
+					if u {
+						out = append(out, id.Name)
+					}
 				}
 			}
 			return true
@@ -221,6 +250,9 @@ func linear(e ast.Expr) (a, b int, ok bool) {
 }
 
 type projector struct {
+	uses            map[*ast.Ident]types.Object
+	fset            *token.FileSet
+	resolutionNoted bool
 	x      *ids
 	nonLin bool // some constant initialiser is outside the linear grammar
 	odd    []string
@@ -250,9 +282,9 @@ func (p *projector) decl(d ast.Decl, out *[]string) {
 			id = 0
 		}
 		*out = append(*out, "f", strconv.Itoa(id), d.Name.Name, dirsOf(d.Doc), cmsIn(d.Doc), strconv.Itoa(p.sigID(d)), recvKey(d.Recv),
-			selsIn(d.Recv, d.Type.TypeParams, d.Type.Params, d.Type.Results),
+			p.selsIn(d.Recv, d.Type.TypeParams, d.Type.Params, d.Type.Results),
 			cmsIn(d.Recv, d.Type.TypeParams, d.Type.Params, d.Type.Results),
-			selsIn(d.Body), cmsIn(d.Body))
+			p.selsIn(d.Body), cmsIn(d.Body))
 	case *ast.GenDecl:
 		tok := map[token.Token]string{token.IMPORT: "i", token.CONST: "c", token.TYPE: "t", token.VAR: "v"}[d.Tok]
 		*out = append(*out, "g", tok, dirsOf(d.Doc), cmsIn(d.Doc), strconv.Itoa(len(d.Specs)))
@@ -270,7 +302,7 @@ func (p *projector) spec(tok token.Token, sp ast.Spec, out *[]string) {
 	case nil:
 		*out = append(*out, "N")
 	case *ast.TypeSpec:
-		*out = append(*out, "t", strconv.Itoa(p.x.typ[s]), s.Name.Name, dirsOf(s.Doc, s.Comment), selsIn(s), cmsIn(s))
+		*out = append(*out, "t", strconv.Itoa(p.x.typ[s]), s.Name.Name, dirsOf(s.Doc, s.Comment), p.selsIn(s), cmsIn(s))
 	case *ast.ImportSpec:
 		name := "-"
 		if s.Name != nil {
@@ -287,7 +319,7 @@ func (p *projector) spec(tok token.Token, sp ast.Spec, out *[]string) {
 		if s.Type != nil {
 			tn = s.Type
 		}
-		*out = append(*out, "v", dirsOf(s.Doc, s.Comment), selsIn(tn), cmsIn(s), strconv.Itoa(len(s.Names)))
+		*out = append(*out, "v", dirsOf(s.Doc, s.Comment), p.selsIn(tn), cmsIn(s), strconv.Itoa(len(s.Names)))
 		for _, n := range s.Names {
 			if n == nil {
 				*out = append(*out, "N")
@@ -312,7 +344,7 @@ func (p *projector) spec(tok token.Token, sp ast.Spec, out *[]string) {
 			if cmsIn(v) != "-" {
 				p.odd = append(p.odd, "comment group inside an initialiser")
 			}
-			*out = append(*out, fmt.Sprintf("%d:%d:%d:%s", p.x.val[v], a, b, selsIn(v)))
+			*out = append(*out, fmt.Sprintf("%d:%d:%d:%s", p.x.val[v], a, b, p.selsIn(v)))
 		}
 	default:
 		p.odd = append(p.odd, fmt.Sprintf("spec %T", s))
